@@ -275,7 +275,7 @@ def check_literals(ck, eng_module, n=None):
 
     R = 4
     classes, model, fams = {}, {'agree': 0, 'unknown': 0, 'disagree': 0, 'sub_agree': 0, 'sub_unknown': 0,
-                                'render_agree': 0, 'render_differs': 0}, {}
+                                'render_agree': 0, 'render_differs': 0, 'unknown_in_domain': 0}, {}
     disagreements, sub_disagreements, reported, in_d, preserved = [], [], set(), 0, 0
     for j, (i, f, fam) in enumerate(lits):
         text = i + '.' + f
@@ -289,6 +289,7 @@ def check_literals(ck, eng_module, n=None):
         # -- model vs implementation
         if a_lit == 'unknown':
             model['unknown'] += 1
+            if dom: model['unknown_in_domain'] += 1
         elif a_lit == shown:
             model['agree'] += 1
         else:
